@@ -19,6 +19,36 @@ MENUS = {
     ]}
 
 
+def memo_programs(ctx):
+    import itertools
+    import random
+    from fractions import Fraction as F
+    import calcrun
+    from drivers.calcgen import Prog, world_tables
+    rnd = random.Random(ctx.seed)
+    types, units, by_type = world_tables(calcrun.export_world())
+    scal = [u for u in units if types[units[u]['t']]['conv'] == 'scale' and not units[u]['quantum']]
+    pairs = [(u, v) for u, v in itertools.product(scal, scal) if u != v]
+    if ctx.tier == 'quick':
+        pairs = [pr for pr in pairs if units[pr[0]]['t'] == units[pr[1]]['t']] + rnd.sample(pairs, 120)
+    progs = []
+    kinds = [(3, 4), (1, 4), (3, 2), (1, 2)]          # registers: 1, 2 quantities; 3, 4 units
+    for k, (u, v) in enumerate(pairs):
+        p = Prog('c17m%d' % k)
+        p.make(1, units[u]['t'], F(3, 2), u)
+        p.make(2, units[v]['t'], F(-5, 4), v, 'frac')
+        p.unit(3, u)
+        p.unit(4, v)
+        order = list(itertools.product(('Div', 'Mul'), kinds, (False, True)))
+        rnd.shuffle(order)
+        for op, (x, y), swap in order:
+            if swap:
+                x, y = {1: 2, 2: 1, 3: 4, 4: 3}[y], {1: 2, 2: 1, 3: 4, 4: 3}[x]
+            p.bin(op, x, y, 5)
+        progs.append(p.d())
+    return progs
+
+
 def run(ctx):
     ctx.rule = ('every interleaving of declarations and unit operations (products, quotients, powers; both operand '
                 'orders; repeated; attempted before their result type exists) over the menus, each transition executed '
@@ -29,6 +59,11 @@ def run(ctx):
     ctx.assumptions = ['types are identified by name in the specification']
     for name, menu, depth in MENUS[ctx.tier]:
         unitscheck.run_menu(ctx, name, menu, depth)
+    # value-level: the same product / quotient asked in every operand kind (unit-unit, quantity-unit, unit-quantity,
+    # quantity-quantity) and in both orders, one after the other in one interpreter - whatever an earlier operation
+    # left in the memo, each answer is the specification's (Calc.tla over World.tla)
+    import calccheck
+    calccheck.run_programs(ctx, memo_programs(ctx), 'memo-orders', sigfn=lambda prog, ev: 'Calc:' + ev['op'])
     # long random histories over the whole menu (61 items), replayed on the specification (UnitsTrace.tla)
     from checks import unitstrace
     unitstrace.run(ctx, 250 if ctx.tier == 'quick' else 3000, 30 if ctx.tier == 'quick' else 40)
@@ -38,4 +73,7 @@ def replay(ctx, rp):
     if rp['replay'].get('kind') == 'unitstrace':
         from checks import unitstrace
         return unitstrace.replay(ctx, rp)
+    if rp['replay'].get('kind') == 'calc':
+        import calccheck
+        return calccheck.replay(ctx, rp, lambda prog, ev: 'Calc:' + ev['op'])
     unitscheck.replay_path(ctx, rp)
